@@ -9,7 +9,7 @@ THEOREMS = ['Diag.reads_are_identity', 'Diag.verdict_stable', 'Diag.reads_prefix
 BUDGET = {'quick': 2500, 'thorough': 30000}
 TIME_LIMIT = {'quick': 55, 'thorough': 800}
 RULE = ('one result of every kind with a built-in representation (equal, approx-equal, Student, chi-square, Bonferroni, '
-        'Holm-Bonferroni, metadata, statistics of tasks / tests / tests by labels, failed evaluation), datasets of shape () '
+        'Holm-Bonferroni, metadata, statistics of tasks / tests / tests by labels, failed evaluation, external test with user-made plot / table / text templates), datasets of shape () '
         'to 3-d with random failing-bin patterns, bins sometimes open-ended (first / last bin 1e30 wide), compared datasets sometimes sharing a name, arrays sometimes in the non-native byte order, then a random sequence of 1-12 read-only operations: bool, oracles, len / '
         'get / index / contains on the classification, classification_counts, table / plot / full representation at every '
         'verbosity, Rst.format_result, fingerprint, data(), pickle.dumps, copy.deepcopy, repr; a deep bit-for-bit snapshot '
@@ -26,7 +26,8 @@ ASSUMPTIONS = ['for array-backed result kinds the theorem is trivial in a pure m
                'snapshots around every read on the real objects',
                'matplotlib is not invoked: plot representation builds PlotTemplate objects only']
 
-KINDS = ['tasks', 'tests', 'bylabels', 'equal', 'approx', 'student', 'student_ndf', 'chi2', 'bonf', 'holm', 'metadata', 'failed']
+KINDS = ['tasks', 'tests', 'bylabels', 'equal', 'approx', 'student', 'student_ndf', 'chi2', 'bonf', 'holm', 'metadata', 'failed',
+         'external']
 OPS = ['bool', 'bool', 'oracles', 'len', 'get', 'index', 'contains', 'counts', 'table', 'table', 'plot', 'full', 'rst',
        'fingerprint', 'data', 'pickle', 'deepcopy', 'repr']
 
@@ -44,6 +45,12 @@ def gen(rng, tier, run):
                 for res in tsk['results'] or []:
                     res['verdict'] = True
         case.update(sub)
+    elif kind == 'external':
+        # a test evaluated outside valjean: the user hands over its verdict and its representation (templates)
+        case['success'] = rng.random() < 0.6
+        case['wide'] = rng.choice([None, 'last', 'first', 'both', 'both'])
+        case['limits'] = rng.choice([None, None, [[9990.0, 10010.0]]])
+        case['templates'] = rng.sample(['plot', 'table', 'text', 'plot2d'], rng.randrange(1, 4))
     elif kind == 'metadata':
         keys = ['a', 'b', 'c']
         case['md'] = [{k: rng.choice([1, 2, 'x']) for k in keys if rng.random() < 0.9} for _ in range(rng.choice([2, 3]))]
@@ -141,6 +148,32 @@ def build(case):
         return stats.TestStatsTestsByLabels(name='s', task_results=task_results, by_labels=tuple(case['byLabels'])), fps
     if kind == 'metadata':
         return TestMetadata({f'd{i}': md for i, md in enumerate(case['md'])}, name='md'), fps
+    if kind == 'external':
+        from valjean.javert.test_external import TestExternal
+        from valjean.javert.templates import (PlotTemplate, SubPlotElements, CurveElements, TableTemplate, TextTemplate)
+        edges = np.array([1e4 - 1, 1e4, 1e4 + 1, 1e4 + 2, 1e4 + 3, 1e4 + 4])
+        if case['wide'] in ('first', 'both'):
+            edges[0] = 1e-11
+        if case['wide'] in ('last', 'both'):
+            edges[-1] = 2e7
+        tmpls = []
+        for what in case['templates']:
+            if what == 'plot':
+                crv = CurveElements(values=np.array([3., 1., 4., 1., 5.]), bins=[edges.copy()], legend='spectrum', index=0,
+                                    errors=np.full(5, 0.1))
+                splt = SubPlotElements(curves=[crv], axnames=('E', 'flux'), ptype='1D')
+                if case['limits'] is not None:
+                    splt.attributes.limits = [tuple(x) for x in case['limits']]
+                tmpls.append(PlotTemplate(subplots=[splt]))
+            elif what == 'plot2d':
+                crv = CurveElements(values=np.arange(10.).reshape(5, 2), bins=[edges.copy(), np.array([0., 1., 2.])],
+                                    legend='map', index=0)
+                tmpls.append(PlotTemplate(subplots=[SubPlotElements(curves=[crv], axnames=('E', 't', 'flux'), ptype='2D')]))
+            elif what == 'table':
+                tmpls.append(TableTemplate(np.array([1., 2.]), np.array([3., 4.]), headers=['a', 'b']))
+            else:
+                tmpls.append(TextTemplate('checked by hand'))
+        return TestExternal(*tmpls, name='ext', description='an external check', success=case['success']), fps
     shape = case['shape']
 
     import sys
